@@ -17,8 +17,8 @@ RULE = ("real TransitSender/TransitReceiver negotiate over SimNet, then record s
         "(for tamper cases) the altered frame was fed to the receiver; distinct = (op, field, index, "
         "direction, reader mode, record sizes).")
 ASSUMPTIONS = ["SimNet fidelity", "sizes <= 300 kB, <= 40 records per direction"]
-FLOORS = {"quick": {"records_surfaced": 5000, "tampers_fed": 200, "clean_complete": 200, "idle_sessions": 50},
-          "thorough": {"records_surfaced": 140000, "tampers_fed": 2500, "clean_complete": 5000, "idle_sessions": 1300}}
+FLOORS = {"quick": {"records_surfaced": 5000, "tampers_fed": 200, "clean_complete": 200, "idle_sessions": 50, "reads_issued_on_dropped_connection": 300},
+          "thorough": {"records_surfaced": 140000, "tampers_fed": 2500, "clean_complete": 5000, "idle_sessions": 1300, "reads_issued_on_dropped_connection": 4000}}
 SIZES = [0, 1, 4, 24, 40, 100, 1000, 65535, 65536, 65537]
 OPS = [("flip", "length"), ("flip", "nonce"), ("flip", "tag"), ("flip", "body"), ("delete", None),
        ("swap", None), ("replay", None), ("truncate", None), ("inject", None), ("reflect", None)]
@@ -176,6 +176,8 @@ def run_case(spec):
             for _ in range(max(0, len(plans[d]) - len(readers[d].got) - len(_cw(d)))):
                 readers[d].read()
     sch.drain(2.0, 500)
+    # reads that are still unanswered although the connection they wait on is gone (before the application's own close())
+    unanswered_on_dead = [readers[d].pending if not getattr(conns[1 - d].transport, "connected", 1) else 0 for d in (0, 1)]
     state_before_close = [c.state for c in conns]
     lose_before_close = [len(link.ends[end0 if i == 0 else 1 - end0].lose_calls) for i in (0, 1)]
     # end of stream: both applications close
@@ -221,7 +223,7 @@ def run_case(spec):
                     viol.append({"key": "C06/file/data-after-tamper", "msg": "file has %d bytes, only %d precede the altered frame %d" % (len(data), good, altered), "witness": wit})
             elif data != want and altered is None and mitm[1 - d].first_altered is None:
                 viol.append({"key": "C06/file/incomplete", "msg": "untampered: %d of %d bytes" % (len(data), len(want)), "witness": wit})
-            if consumer_d[d] is not None and not consumer_d[d].done and attached_alive[d]:
+            if consumer_d[d] is not None and not consumer_d[d].done:
                 viol.append({"key": "C06/consumer-deferred-pending", "msg": "writeToFile Deferred neither fired nor failed after the stream ended", "witness": wit})
         else:
             total_surfaced += len(got)
@@ -241,10 +243,13 @@ def run_case(spec):
             if altered is None and mitm[1 - d].first_altered is None and got != plans[d]:
                 viol.append({"key": "C06/incomplete-without-tamper", "msg": "direction %d mode %s: %d of %d records surfaced" % (d, modes[d], len(got), len(plans[d])),
                              "witness": dict(wit, surfaced_sizes=[len(x) for x in got][:45])})
+            if unanswered_on_dead[d]:
+                viol.append({"key": "C06/read-on-dropped-connection-never-fails", "msg": "direction %d mode %s: the connection has been dropped, %d receive_record() Deferreds are still waiting" % (d, modes[d], unanswered_on_dead[d]),
+                             "witness": wit})
             if readers[d].pending:
                 viol.append({"key": "C06/read-pending-after-close", "msg": "direction %d: %d receive_record() Deferreds never fired nor failed" % (d, readers[d].pending),
                              "witness": wit})
-            if consumer_d[d] is not None and not consumer_d[d].done and attached_alive[d]:
+            if consumer_d[d] is not None and not consumer_d[d].done:
                 viol.append({"key": "C06/consumer-deferred-pending", "msg": "connectConsumer Deferred neither fired nor failed", "witness": wit})
         if altered is not None:
             # was a complete differing frame actually fed to the receiver?  then it must have hung up
@@ -264,7 +269,7 @@ def run_case(spec):
                       [len(x) for x in plans[0]][:10], [len(x) for x in plans[1]][:10], sch.tiny_budget]
     return {"violations": viol, "nontrivial": nontrivial,
             "counters": {"records_surfaced": total_surfaced, "tampers_fed": tampers_fed,
-                         "clean_complete": int(clean and not viol), "idle_sessions": idled, "partial_consumers": sum(1 for x in partial if x is not None), "records_sent": sent[0] + sent[1],
+                         "clean_complete": int(clean and not viol), "idle_sessions": idled, "reads_issued_on_dropped_connection": sum(len(plans[d]) for d in (0, 1) if modes[d] == "late" and not getattr(conns[1 - d].transport, "connected", 1)) if tamper else 0, "partial_consumers": sum(1 for x in partial if x is not None), "records_sent": sent[0] + sent[1],
                          "bytes": sum(len(x) for p in plans for x in p), "steps": world.step,
                          **{"mode_" + m: 1 for m in modes}},
             "sample": {"spec": spec, "modes": modes, "sizes0": [len(x) for x in plans[0]][:12], "sizes1": [len(x) for x in plans[1]][:12],
